@@ -91,7 +91,27 @@ func longLineTexts() []struct{ ext, text string } {
 	}
 }
 
+// expandedCorpus: texts the independent YAML decoder refuses although YAML allows them (an anchor
+// name defined again: an alias refers to the LATEST definition before it, YAML 1.2 section 3.2.2.2).
+// Their meaning is the independent decoding of the expanded text next to them.
+var expandedCorpus = []struct{ ext, text, expanded string }{
+	{"yaml", "blue: &c {name: b}\nsky: *c\nred: &c {name: r}\nrose: *c\n", "blue: {name: b}\nsky: {name: b}\nred: {name: r}\nrose: {name: r}\n"},
+	{"yaml", "a: &v 1\nb: *v\nc: &v two\nd: [*v, *v]\ne: &v [3]\nf: *v\n", "a: 1\nb: 1\nc: two\nd: [two, two]\ne: [3]\nf: [3]\n"},
+	{"yaml", "l:\n  - &x {k: 1}\n  - *x\n  - &x {k: 2}\n  - <<: *x\n    j: 3\n", "l:\n  - {k: 1}\n  - {k: 1}\n  - {k: 2}\n  - {k: 2, j: 3}\n"},
+}
+
 func corpusLayouts() (ls []*layout, skipped int) {
+	for _, c := range expandedCorpus {
+		docs, ok, _, err := indep.Decode(c.ext, c.expanded)
+		if err != nil || !ok || len(docs) == 0 || !representable(docs) {
+			Fatal("expanded corpus text not decodable: %q", c.expanded)
+		}
+		e := fsx.Entry{Kind: "file", Raw: []byte(c.text)}
+		for _, d := range docs {
+			e.Docs = append(e.Docs, d.([]any))
+		}
+		ls = append(ls, &layout{Fs: map[string]fsx.Entry{"/w/a." + c.ext: e}, Inputs: []string{"a." + c.ext}, Root: "/"})
+	}
 	for _, c := range formatCorpus {
 		docs, ok, _, err := indep.Decode(c.ext, c.text)
 		if err != nil {
